@@ -55,6 +55,9 @@ impl Src for KaniSrc {
     fn assume(&mut self, c: bool) {
         kani::assume(c)
     }
+    fn bytes<const N: usize>(&mut self) -> [u8; N] {
+        kani::any()
+    }
 }
 
 /// Replays the little-endian byte vectors printed by `--concrete-playback=print`, one per draw.
@@ -103,6 +106,16 @@ impl Src for VecSrc {
     }
     fn usize(&mut self) -> usize {
         self.next(8) as usize
+    }
+    fn bytes<const N: usize>(&mut self) -> [u8; N] {
+        // Kani prints a whole array as one draw
+        let d = self.draws.get(self.pos).cloned().unwrap_or_default();
+        self.pos += 1;
+        let mut a = [0u8; N];
+        for (i, b) in d.iter().enumerate().take(N) {
+            a[i] = *b;
+        }
+        a
     }
     fn assume(&mut self, c: bool) {
         if !c {
